@@ -1770,10 +1770,13 @@ def share_rules(ctx, prop, rules, as_rule, item, floor, exclude=()):
     A module that cannot be evaluated, or fewer than `floor` shared instances, is a violation (fail closed)."""
     import importlib
     from check import Ctx, Record
+    if getattr(ctx, "no_share", False):
+        return          # this module is itself being evaluated for another property's shared rules: one level of sharing only (no cycles)
     ck = (id(ctx.fx), prop, ctx.tier)
     if ck not in _SHARE_CACHE:
         mod = importlib.import_module("rules." + prop.lower())
         sub = Ctx(prop, ctx.tier, ctx.fx)
+        sub.no_share = True
         sub.inline_set = ctx.inline_set
         sub.desugar = bool(getattr(mod, "DESUGAR", False))
         try:
